@@ -141,7 +141,79 @@ func (g *metaGenState) cref(p int) string {
 	}
 }
 
+// scenario histories: few distinct contents, objects whose part list repeats one part id (identical multipart
+// parts / repeated appends are deduplicated onto one id), several copies sharing those parts, then deletes in
+// random order with a full read-back after each — the histories in which reference counting decides whether
+// surviving objects stay readable
+func metaGenSharing(r *Rng) string {
+	hb := func(s string) string { return tokBytes(s) }
+	b := hb(metaBuckets[0])
+	pool := [][]byte{r.Bytes(1 + r.Intn(12)), r.Bytes(1 + r.Intn(12)), {}}
+	pick := func() string { return tokBytes(string(pool[r.Intn(2+r.Intn(2))])) }
+	ops := []string{"mb:" + b}
+	if r.Chance(40) {
+		ops = append(ops, "ver:"+b+":"+r.Pick([]string{"E", "S"}))
+	}
+	keys := []string{hb("src"), hb("c1"), hb("c2"), hb("c3")}
+	// source object with repeated parts
+	switch r.Intn(3) {
+	case 0:
+		u := len(ops)
+		ops = append(ops, "cmu:"+b+":"+keys[0])
+		np := 2 + r.Intn(3)
+		for i := 1; i <= np; i++ {
+			ops = append(ops, "up:"+b+":"+keys[0]+":#"+strconv.Itoa(u)+":"+strconv.Itoa(i)+":"+pick())
+		}
+		ops = append(ops, "cpl:"+b+":"+keys[0]+":#"+strconv.Itoa(u)+":-:-")
+	case 1:
+		for i := 0; i < 2+r.Intn(3); i++ {
+			ops = append(ops, "app:"+b+":"+keys[0]+":"+pick()+":-")
+		}
+	default:
+		ops = append(ops, "put:"+b+":"+keys[0]+":"+pick()+":-")
+		ops = append(ops, "put:"+b+":"+keys[1]+":"+pick()+":-")
+	}
+	live := []string{keys[0]}
+	for i := 1; i <= 1+r.Intn(3); i++ {
+		src := live[r.Intn(len(live))]
+		if r.Chance(25) {
+			u := len(ops)
+			ops = append(ops, "cmu:"+b+":"+keys[i])
+			ops = append(ops, "upc:"+b+":"+src+":-:"+b+":"+keys[i]+":#"+strconv.Itoa(u)+":1:-:-")
+			if r.Bool() {
+				ops = append(ops, "upc:"+b+":"+src+":-:"+b+":"+keys[i]+":#"+strconv.Itoa(u)+":2:-:-")
+			}
+			ops = append(ops, "cpl:"+b+":"+keys[i]+":#"+strconv.Itoa(u)+":-:-")
+		} else {
+			ops = append(ops, "cp:"+b+":"+src+":-:"+b+":"+keys[i])
+		}
+		live = append(live, keys[i])
+		if r.Chance(20) {
+			ops = append(ops, "put:"+b+":"+r.Pick(live)+":"+pick()+":-")
+		}
+	}
+	sweep := func() {
+		for _, k := range keys {
+			ops = append(ops, "get:"+b+":"+k+":-")
+		}
+	}
+	sweep()
+	for len(live) > 1 {
+		i := r.Intn(len(live))
+		ops = append(ops, "del:"+b+":"+live[i]+":-:-")
+		if r.Chance(30) {
+			ops = append(ops, "lsv:"+b)
+		}
+		live = append(live[:i], live[i+1:]...)
+		sweep()
+	}
+	return strings.Join(ops, " ")
+}
+
 func metaGenHistory(r *Rng, profile string) string {
+	if r.Chance(12) {
+		return metaGenSharing(r)
+	}
 	g := &metaGenState{r: r, upParts: map[int][]int{}, ver: map[string]string{}}
 	hb := func(s string) string { return tokBytes(s) }
 	nb := 1 + r.Intn(2)
